@@ -32,6 +32,22 @@ func subAnchors(c *Ctx, r *Report, rule string) (subFns, bool) {
 			}
 		}
 	}
+	if s.subscribe == nil {
+		// no function of its own: the registration is the place where one subscription is appended to the
+		// registry (written out in the entry point); the function that holds it plays the role
+		for _, f := range c.allFns {
+			if !c.inPkg(f) || f == s.unsub || f == s.addEvent {
+				continue
+			}
+			if len(registryAppends(c, f)) > 0 {
+				if s.subscribe != nil && s.subscribe != f {
+					r.undecided(rule, "anchor subscribe: registration site", f.Pos(), "more than one function appends to the registry: "+fnName(s.subscribe)+", "+fnName(f))
+					return s, false
+				}
+				s.subscribe = f
+			}
+		}
+	}
 	ok := s.subscribe != nil && s.unsub != nil && s.addEvent != nil
 	if !ok {
 		r.undecided(rule, "anchors subscribe / Unsubscribe / AddEvent", token.NoPos, "not found")
@@ -39,6 +55,58 @@ func subAnchors(c *Ctx, r *Report, rule string) (subFns, bool) {
 		r.fnSeen(fnName(s.subscribe), fnName(s.unsub), fnName(s.addEvent))
 	}
 	return s, ok
+}
+
+// registryAppends: the stores `root.subscriptions = append(root.subscriptions, x)` of one *Subscription x.
+type regAppend struct {
+	store *ssa.Store
+	val   ssa.Value
+}
+
+func registryAppends(c *Ctx, fn *ssa.Function) []regAppend {
+	var out []regAppend
+	for _, b := range fn.Blocks {
+		for _, in := range b.Instrs {
+			st, ok := in.(*ssa.Store)
+			if !ok {
+				continue
+			}
+			fa, ok := st.Addr.(*ssa.FieldAddr)
+			if !ok {
+				continue
+			}
+			if o, f := fieldOwner(fa.X.Type(), fa.Field); o != "Root" || f != "subscriptions" {
+				continue
+			}
+			call, ok := st.Val.(*ssa.Call)
+			if !ok || !isBuiltinCall(call, "append") || !isSubsLoad(call.Call.Args[0]) {
+				continue
+			}
+			// varargs slice holding exactly one value
+			sl, ok := call.Call.Args[1].(*ssa.Slice)
+			if !ok {
+				continue
+			}
+			al, ok := sl.X.(*ssa.Alloc)
+			if !ok {
+				continue
+			}
+			var vals []ssa.Value
+			for _, ref := range *al.Referrers() {
+				if ia, ok := ref.(*ssa.IndexAddr); ok {
+					for _, r2 := range *ia.Referrers() {
+						if s2, ok := r2.(*ssa.Store); ok {
+							vals = append(vals, s2.Val)
+						}
+					}
+				}
+			}
+			if len(vals) == 1 && c.isNamed(vals[0].Type(), "Subscription") {
+				out = append(out, regAppend{st, vals[0]})
+			}
+		}
+	}
+	return out
 }
 
 func isSubsLoad(v ssa.Value) bool {
@@ -307,6 +375,16 @@ func checkC19(c *Ctx, r *Report) {
 				}
 				n++
 				okFn := fn == s.subscribe || fn == s.unsub || fn == s.addEvent
+				if fn == s.subscribe && !c.hasParam(fn, "Subscription") {
+					// the registration is written out in a function that does other things too: only the
+					// registering append itself may write the registry there
+					okFn = false
+					for _, ra := range registryAppends(c, fn) {
+						if ra.store == st {
+							okFn = true
+						}
+					}
+				}
 				r.check("C19.OWN", fmt.Sprintf("%s: writes the registry", fnName(fn)), st.Pos(), okFn, "the subscription registry is written outside subscribe / Unsubscribe / AddEvent")
 			}
 		}
@@ -320,30 +398,9 @@ func checkC19(c *Ctx, r *Report) {
 			subP = p
 		}
 	}
-	for _, b := range s.subscribe.Blocks {
-		for _, in := range b.Instrs {
-			st, ok := in.(*ssa.Store)
-			if !ok {
-				continue
-			}
-			call, ok := st.Val.(*ssa.Call)
-			if !ok || !isBuiltinCall(call, "append") || !isSubsLoad(call.Call.Args[0]) {
-				continue
-			}
-			// varargs slice holding exactly the parameter
-			if sl, ok := call.Call.Args[1].(*ssa.Slice); ok {
-				if al, ok := sl.X.(*ssa.Alloc); ok {
-					for _, ref := range *al.Referrers() {
-						if ia, ok := ref.(*ssa.IndexAddr); ok {
-							for _, r2 := range *ia.Referrers() {
-								if s2, ok := r2.(*ssa.Store); ok && s2.Val == ssa.Value(subP) {
-									appOK = true
-								}
-							}
-						}
-					}
-				}
-			}
+	for _, ra := range registryAppends(c, s.subscribe) {
+		if subP == nil || ra.val == ssa.Value(subP) {
+			appOK = true
 		}
 	}
 	r.check("C19.OWN", fnName(s.subscribe)+": appends the new subscription at the end of the registry", s.subscribe.Pos(), appOK, "registration order is delivery order: the new subscription must be appended")
@@ -486,7 +543,7 @@ func checkC19(c *Ctx, r *Report) {
 			cc := ci.Common()
 			if cc.IsInvoke() && cc.Method.Name() == "Unsubscribe" && c.isNamed(cc.Value.Type(), "Subscriber") {
 				if !unsubSites[ci.(ssa.Instruction)] {
-					r.check("C19.PAIR", fmt.Sprintf("%s: Subscriber.Unsubscribe called only where a subscription is removed", fnName(fn)), ci.Pos(), false, "a clean-up callback that is not paired with a removal from the registry: clean-up could be called twice or for a live subscriber")
+					r.flag("C19.PAIR", fmt.Sprintf("%s: Subscriber.Unsubscribe called only where a subscription is removed", fnName(fn)), ci.Pos(), "a clean-up callback that is not paired with a removal from the registry: clean-up could be called twice or for a live subscriber")
 				}
 			}
 		}
@@ -507,24 +564,36 @@ func c19Register(c *Ctx, r *Report, s subFns) {
 		return
 	}
 	n := 0
-	var sites []ssa.CallInstruction
-	for _, fn := range c.allFns {
-		if !c.inPkg(fn) {
-			continue
-		}
-		for _, ci := range callsIn(fn) {
-			if ci.Common().StaticCallee() == s.subscribe {
-				sites = append(sites, ci)
+	// a registration site: a call of the registration function, or - when the registration is written out where
+	// it is needed - the append itself
+	type regSite struct {
+		in   ssa.Instruction
+		args []ssa.Value
+	}
+	var sites []regSite
+	if c.hasParam(s.subscribe, "Subscription") {
+		for _, fn := range c.allFns {
+			if !c.inPkg(fn) {
+				continue
+			}
+			for _, ci := range callsIn(fn) {
+				if ci.Common().StaticCallee() == s.subscribe {
+					sites = append(sites, regSite{ci, ci.Common().Args})
+				}
 			}
 		}
+	} else {
+		for _, ra := range registryAppends(c, s.subscribe) {
+			sites = append(sites, regSite{ra.store, []ssa.Value{ra.val}})
+		}
 	}
-	for _, ci := range sites {
-		entry := ci.Parent()
+	for _, site := range sites {
+		entry := site.in.Parent()
 		r.fnSeen(fnName(entry))
 		n++
 		ok := false
 		src := ""
-		for _, arg := range ci.Common().Args {
+		for _, arg := range site.args {
 			if !c.isNamed(arg.Type(), "Subscription") {
 				continue
 			}
@@ -547,10 +616,10 @@ func c19Register(c *Ctx, r *Report, s subFns) {
 				}
 			}
 		}
-		if !ok && registeredOnceBySet(ci) {
+		if !ok && registeredOnceBySet(site.in) {
 			ok = true // a walk in another order that remembers what it has registered
 		}
-		r.check("C19.REGISTER", fmt.Sprintf("%s: registration #%d considers every entry of the resolved map", fnName(entry), n), ci.Pos(), ok,
+		r.check("C19.REGISTER", fmt.Sprintf("%s: registration #%d considers every entry of the resolved map", fnName(entry), n), site.in.Pos(), ok,
 			"the registered value is "+src+", not the value of a range over the resolved map: a subscription resolved inside an inline fragment or fragment spread of the operation is never registered, or - looked up once per selection - one whose response key is selected twice is registered twice and then receives every event twice and is cleaned up twice")
 	}
 	r.floor("C19.REGISTER", "registrations (calls of the registration function)", n, 1)
@@ -562,22 +631,25 @@ func c19Register(c *Ctx, r *Report, s subFns) {
 		return
 	}
 	m := 0
+	var gated []ssa.Instruction
+	for _, site := range sites {
+		if site.in.Parent() == ent {
+			gated = append(gated, site.in)
+		}
+	}
 	for _, ci := range callsIn(ent) {
 		cal := ci.Common().StaticCallee()
-		if cal == nil {
+		if cal == nil || cal == s.subscribe || !c.inPkg(cal) {
 			continue
 		}
-		registers := cal == s.subscribe
-		if !registers && c.inPkg(cal) {
-			for _, site := range sites {
-				if site.Parent() == cal {
-					registers = true
-				}
+		for _, site := range sites {
+			if site.in.Parent() == cal {
+				gated = append(gated, ci)
+				break
 			}
 		}
-		if !registers {
-			continue
-		}
+	}
+	for _, ci := range gated {
 		m++
 		ok := hasGuard(ci.Block(), func(g guard) bool {
 			x, op, k, isCmp := intCmp(g.cond)
@@ -635,7 +707,7 @@ func c19Deliver(c *Ctx, r *Report, s subFns) {
 		cc := ci.Common()
 		if cc.IsInvoke() && cc.Method.Name() == "Send" && c.isNamed(cc.Value.Type(), "Subscriber") {
 			if send != nil {
-				r.check("C19.DELIVER", fnName(fn)+": a single Send call site", ci.Pos(), false, "more than one Send call site: a subscriber could receive an event twice")
+				r.flag("C19.DELIVER", fnName(fn)+": a single Send call site", ci.Pos(), "more than one Send call site: a subscriber could receive an event twice")
 			}
 			send, _ = ci.(*ssa.Call)
 		}
@@ -644,11 +716,13 @@ func c19Deliver(c *Ctx, r *Report, s subFns) {
 		r.check("C19.DELIVER", fnName(fn)+": delivers through Subscriber.Send", fn.Pos(), false, "no Send call found")
 		return
 	}
+	r.check("C19.DELIVER", fnName(fn)+": delivers through Subscriber.Send", send.Pos(), true, "")
 	l := innermostLoop(loops, send.Block())
 	if l == nil {
 		r.check("C19.DELIVER", fnName(fn)+": Send inside the publish loop", send.Pos(), false, "Send is not in a loop over the registry")
 		return
 	}
+	r.check("C19.DELIVER", fnName(fn)+": Send inside the publish loop", send.Pos(), true, "")
 	ind := loopInduction(l)
 	okAsc := ind.ok
 	if okAsc {
@@ -977,7 +1051,7 @@ func lockRulesFiltered(c *Ctx, r *Report, eng *effEngine, prop string, sums map[
 
 // registeredOnceBySet: the registration is control dependent on a miss in a set (a map M: the lookup M[k]
 // is false / absent) and the same function enters k into M: each key or subscription passes at most once.
-func registeredOnceBySet(ci ssa.CallInstruction) bool {
+func registeredOnceBySet(ci ssa.Instruction) bool {
 	fn := ci.Parent()
 	for _, g := range blockGuards(ci.Block()) {
 		g = normGuard(g)
